@@ -72,6 +72,8 @@ def inst_sizes(cx, iid):
             rv = s["rv"]
             if rv["k"] == "agg" and rv.get("adt", "").endswith("PendingPacket"):
                 lf = pn.operand_expr(rv["ops"][rv["fields"].index("last_fragment_id")])
+        from rules import strip_result_cast
+        lf = strip_result_cast(lf) if lf else lf  # the field is a u16: the final conversion is the field's type
         got = acnf(lf) if lf else None
         M = R.const_int("MAX_FRAGMENT_SIZE")
         inst.site(pn, None, "last_fragment_id = " + str(got))
@@ -263,6 +265,10 @@ def run(cx):
     from props.C05 import fragment_enumeration
     with cx.instance("C04.h", "T5 LOOP + T7", "the sender queues fragment ids 0..=last_fragment_id of each packet, ascending", floor=1) as inst:
         fragment_enumeration(cx, inst)
+    # a packet of up to max_packet_size arrives only if the sender's admission limit is the receiver's reservation
+    # for it, rounded to whole fragments the same way on both sides
+    from props.C06 import inst_sibling_accounting
+    inst_sibling_accounting(cx, "C04.n")
 
 
 SELFTEST = [
